@@ -314,6 +314,14 @@ def gen_ops(w, rng, quick):
             k = rng.randint(2, 3)
             ops.append(("instance", [(rng.randrange(nT), rng.choice(w.values)) for _ in range(k)]))
     rng.shuffle(ops)
+    # conflicting pairs (the second raises UPConflictingEffectsException, an input of the model), kept adjacent
+    for j in range(6 if quick else 40):
+        ti = rng.choice([1, 2, 4, 5])
+        site = rng.choice(["SInst", "SDur", "SProb"])
+        pos = rng.randrange(len(ops))
+        pos -= pos % 60
+        ops.insert(pos, ("effect", site, "EAssign", ti, 0, "true", True, 3000 + j))
+        ops.insert(pos + 1, ("effect", site, "EAssign", ti, 1, "true", True, 3000 + j))
     return ops
 
 
